@@ -18,7 +18,7 @@ WRITER_CONFIGS = {
              {"video_width": 640, "video_height": 360}],
     "DFXP-single": [{}], "DFXP-legacy": [{}],
 }
-EDITS = ["add_style", "caption_time", "node_text", "caption_style", "retime"]
+EDITS = ["add_style", "caption_time", "node_text", "caption_style", "retime", "layout_deep", "style_deep"]
 
 
 def cfg_key(kind, opts):
@@ -42,6 +42,31 @@ def apply_edit(cs, name):
         caps[0].style["verif"] = "1"
     elif name == "retime":
         cs.adjust_caption_timing(offset=1000)
+    elif name == "layout_deep":
+        # edit, in place, the geometry objects the first positioned caption / node holds
+        from pycaption.geometry import HorizontalAlignmentEnum
+        for holder in [c for c in caps] + [n for c in caps for n in c.nodes]:
+            lay = holder.layout_info
+            if lay is None:
+                continue
+            if lay.alignment is not None:
+                lay.alignment.horizontal = (HorizontalAlignmentEnum.RIGHT if lay.alignment.horizontal != HorizontalAlignmentEnum.RIGHT
+                                            else HorizontalAlignmentEnum.LEFT)
+            if lay.origin is not None:
+                lay.origin.x.value = lay.origin.x.value + 1
+            if lay.padding is not None and lay.padding.start is not None:
+                lay.padding.start.value = lay.padding.start.value + 1
+            break
+    elif name == "style_deep":
+        # edit, in place, the rule dictionaries of the style table and of the first style node
+        for k, rules in cs.get_styles():
+            if isinstance(rules, dict):
+                rules["verif-deep"] = "1"
+                break
+        for n in caps[0].nodes:
+            if n.type_ == CaptionNode.STYLE and isinstance(n.content, dict):
+                n.content["verif-deep"] = True
+                break
     else:
         raise ValueError(name)
 
